@@ -29,15 +29,15 @@ ASSUMPTIONS = [
     "capacity-infeasible insertions and operators mutating (without corrupting) their input are recorded as L2 events, not violations: the statement does not promise them",
 ]
 STRATA = [
-    ("js-random", 1200, 18000),
-    ("js-gaps-zero-repeat", 900, 14000),
-    ("js-contention", 700, 10000),
+    ("js-random", 1200, 12000),
+    ("js-gaps-zero-repeat", 900, 9000),
+    ("js-contention", 700, 7000),
     ("js-exhaustive", 1, 1),
-    ("vrp-single", 200, 3000),
-    ("vrp-multi", 400, 6000),
-    ("vrp-stress", 300, 4500),
-    ("ops-alternating", 1500, 22000),
-    ("ops-free", 800, 12000),
+    ("vrp-single", 200, 2200),
+    ("vrp-multi", 400, 4500),
+    ("vrp-stress", 300, 3200),
+    ("ops-alternating", 1500, 16000),
+    ("ops-free", 800, 9000),
 ]
 _OPS_REQUIRED = ["random_removal", "worst_removal", "related_removal", "route_removal", "sync_removal",
                  "greedy_insertion", "regret_insertion", "sync_aware_insertion"]
